@@ -102,4 +102,6 @@ package bcl
 //@   assert [C09,C13] code_short_only_if_stream_short2: at Errorf#10: g.short
 //@   loop 1 invariant 0 <= i && !g.short && g.rp >= 4 && int(m) == len(prog.constants) && m <= 2147483647 && (forall k int :: 0 <= k && k < i ==> storable(prog.constants[k]))
 //@   loop 2 invariant 0 <= i && !g.short && g.rp >= 4 && int(m) == len(prog.positions) && m <= 2147483647 && (forall k int :: 0 <= k && k < len(prog.constants) ==> storable(prog.constants[k]))
+//@   loop 2 step [C09,C14,C08] each_position_is_the_decoded_value: i == prev(i) + 1 && prog.positions[prev(i)] == int(uvstream(prev(g.rp)))
+//@   loop 3 step [C09,C14,C08] each_line_break_is_the_decoded_value: i == prev(i) + 1 && prog.linePos.lfs[prev(i)] == int(uvstream(prev(g.rp)))
 //@   loop 3 invariant 0 <= i && !g.short && g.rp >= 4 && prog.linePos != nil && int(m) == len(prog.linePos.lfs) && m <= 2147483647 && (forall k int :: 0 <= k && k < len(prog.constants) ==> storable(prog.constants[k]))
